@@ -23,6 +23,10 @@ SPEC = {
 }
 
 
+KF_REST_CTRL = "C21:rest:control-character-in-text-read-as-layout-by-docutils"
+CTRL = __import__("re").compile("[\r\f\v\x1c-\x1f\x85]")
+
+
 def cost_computer(name, grammar, rng, variant):
     from isla.solver import GrammarBasedBlackboxCostComputer, CostSettings, CostWeightVector, STD_COST_SETTINGS
     import grammar_graph.gg as gg
@@ -123,7 +127,14 @@ def run_one(ctx, name, spec, rng, nsol, budget_s):
             else:
                 why = validator(t)
         if why:
-            ctx.violation(None, f"{name}: {why}", {**wit, "solution": s, "k": k + 1})
+            key = None
+            if name == "rest" and "docutils reports" in str(why) and CTRL.search(s):
+                # repaired twin on the input side: the same document with its control characters (carriage return, form
+                # feed, vertical tab, ... - docutils reads them as line breaks / indentation) replaced by a letter
+                why2, _ = D.check_rest_docutils(CTRL.sub("x", s))
+                if why2 is None:
+                    key = KF_REST_CTRL
+            ctx.violation(key, f"{name}: {why}", {**wit, "solution": s, "k": k + 1})
         else:
             ctx.count(fam + "_judged")
             ctx.held((name, s), sample={"formalization": name, "solution": s[:120], "seed": seed, "cost_variant": variant})
